@@ -1635,10 +1635,11 @@ class Sim:
         exp = math.inf if pc.limit is None else pc.limit
         got = pc.pool.pool_size
         self.ev("size_get", pc.idx, str(got))
-        if pc.n_run or pc.n_C:
+        waiting = any(r.work_left() for r in pc.reqs if r.accepted_seq is not None)
+        if pc.n_run or pc.n_C or waiting:
             self.stats["probe:size_read_while_running"] += 1
             if got != exp:
-                self.violate("C15", "getter_while_running", f"pool_size={got} with {pc.n_run} tasks running, configured maximum {exp}")
+                self.violate("C15", "getter_while_running", f"pool_size={got} with {pc.n_run} tasks running{' and requests waiting' if waiting else ''}, configured maximum {exp}")
         elif got != exp:
             self.violate("C15", "getter_idle", f"pool_size={got} on an empty pool, configured maximum {exp}",
                          tainted=pc.set_while_busy)
@@ -1674,8 +1675,9 @@ class Sim:
         if pc.n_run or pc.n_C:
             self.stats["probe:size_set_while_running"] += 1
             pc.set_while_busy = True
-        if any(r.work_left() for r in pc.reqs):
+        if any(r.work_left() for r in pc.reqs if r.accepted_seq is not None):
             self.stats["probe:size_set_while_waiting"] += 1
+            pc.set_while_busy = True
         pc.limit = v
         pc.size = v
         pc.hi = pc.n_run          # running count may stay above a lowered limit, but must not grow
